@@ -81,6 +81,28 @@ func (w *World) Battery(db walletdb.DB, m *waddrmgr.Manager) map[string]string {
 			sort.Strings(active)
 			out[fmt.Sprintf("active:%v", sc)] = strings.Join(active, ",")
 		}
+		// manager-level scope registry
+		var scopes []string
+		for _, sm := range m.ActiveScopedKeyManagers() {
+			scopes = append(scopes, fmt.Sprint(sm.Scope()))
+		}
+		sort.Strings(scopes)
+		out["scopes"] = strings.Join(scopes, ",")
+		for _, t := range []waddrmgr.AddressType{waddrmgr.PubKeyHash, waddrmgr.NestedWitnessPubKey, waddrmgr.WitnessPubKey, waddrmgr.TaprootPubKey} {
+			var ex, in []string
+			for _, sc := range m.ScopesForExternalAddrType(t) {
+				ex = append(ex, fmt.Sprint(sc))
+			}
+			for _, sc := range m.ScopesForInternalAddrTypes(t) {
+				in = append(in, fmt.Sprint(sc))
+			}
+			sort.Strings(ex)
+			sort.Strings(in)
+			out[fmt.Sprintf("scopes-by-type:%d", t)] = strings.Join(ex, ",") + " | " + strings.Join(in, ",")
+		}
+		nact := 0
+		err := m.ForEachActiveAddress(ns, func(btcutil.Address) error { nact++; return nil })
+		out["active-all"] = fmt.Sprint(nact, " ", errCode(err))
 		st := m.SyncedTo()
 		out["synced"] = fmt.Sprintf("%d %v %d", st.Height, st.Hash, st.Timestamp.Unix())
 		for h := w.Height - 4; h <= w.Height+1; h++ {
